@@ -87,7 +87,9 @@ def run(tier, replay=None):
     if replay:
         return ikeprop.replay_file(v, replay)
     scen = ['estab', 'init_cookie', 'estab_rekey_ke', 'estab_pfs'] if tier == 'quick' else ['estab_loss', 'estab3', 'init_ke', 'init_cookie', 'estab_pfs', 'estab_rekey_ke', 'init3']
-    ikeprop.run(v, scen, limit=3000 if tier == 'quick' else None)
+    # the role of an IKE_SA (who started the exchange that created it - also for an IKE_SA created by a rekey) decides the Initiator flag and the SPI
+    # positions of every header it emits: a role that differs from the specification's is this property's
+    ikeprop.run(v, scen, limit=3000 if tier == 'quick' else None, extra_owned=('sa.init',))
     rnd = random.Random(common.SEED)
     replay_storm(v, [rnd.randrange(1 << 30) for _ in range(12 if tier == 'quick' else 150)], 40 if tier == 'quick' else 70)
     ikeprop.run_traces(v, 24 if tier == 'quick' else 400, 60 if tier == 'quick' else 120)     # binding B: Message IDs of recorded random schedules
